@@ -205,6 +205,11 @@ def gen_case(rng: random.Random, tier):
         isa['macros'] = {'mtst': [{'operands': {'count': 0}, 'instructions': ['padx', 'tst ' + ', '.join(case['texts'])]}]}
         case['asm'] = f'.org {addr - 1}\nmtst\n'
         case['via_macro'] = True
+    elif rng.random() < 0.15:
+        # the same statement inside a muted stretch: it emits nothing, but it is assembled - its operands are checked
+        # against their constraints exactly as if it were not muted
+        case['asm'] = f'.org {addr}\n#mute\ntst ' + ', '.join(case['texts']) + '\n' + rng.choice(['#emit', '#unmute', '']) + '\n'
+        case['muted'] = True
     return case
 
 
@@ -227,6 +232,9 @@ def judge(case, ir, mr):
     a = ('bytes', list(actual)) if actual is not None else ('err', ir['status'])
     mi = ('bytes', mr['impl']['bytes']) if 'bytes' in mr['impl'] else ('err', mr['impl']['err'])
     ms = ('bytes', mr['spec']['bytes']) if 'bytes' in mr['spec'] else ('err', mr['spec']['err'])
+    if case.get('muted'):
+        tags.append('muted')
+        a, mi, ms = [(x[0], []) if x[0] == 'bytes' else x for x in (a, mi, ms)]
     tags.append('accepted' if a[0] == 'bytes' else 'rejected')
     det = f'{case["asm"].splitlines()[-1]!r} actual={a} impl={mi} spec={ms} msg={str(ir.get("msg"))[:100]}'
     same = lambda x, y: x[0] == y[0] and (x[0] == 'err' or x[1] == y[1])  # noqa
